@@ -27,9 +27,16 @@ type c01Anchors struct {
 	nodeMapIdx int
 	dedup      *ssa.Function // FilterPodsByNode
 	dedupCall  *ssa.Call
-	nameMap    ssa.Value // map[node name][]*Pod inside mapping
-	nodeIndex  ssa.Value // map[node name]*NodeItem inside mapping
+	nameMap    ssa.Value       // map[node name][]*Pod inside mapping
+	nodeIndex  ssa.Value       // map[node name]*NodeItem inside mapping
+	al         *aliasC         // identity of values across the mapping function's helpers
+	scope      []*ssa.Function // the mapping function and the repository helpers it reaches (sorted)
 }
+
+// isNameMap / isNodeIndex: v denotes the per-node-name map / the node index, in the mapping
+// function or in a helper it hands the map to or gets it from.
+func (a *c01Anchors) isNameMap(v ssa.Value) bool   { return a.al.same(v, a.nameMap) }
+func (a *c01Anchors) isNodeIndex(v ssa.Value) bool { return a.al.same(v, a.nodeIndex) }
 
 func c01ERSReconcile(r *Run) (*ssa.Function, map[*ssa.Function]bool) {
 	rec := r.Prog.Method(pkgERS, "Reconciler", "Reconcile")
@@ -110,12 +117,19 @@ func c01FindAnchors(r *Run) *c01Anchors {
 	}
 	a.dedup = staticCallee(&a.dedupCall.Call)
 	a.nameMap, a.nodeIndex = a.dedupCall.Call.Args[0], a.dedupCall.Call.Args[1]
-	if _, ok := a.nameMap.(*ssa.MakeMap); !ok {
-		r.Fatal("the map handed to %s is not a map made in %s", shortFunc(a.dedup), shortFunc(a.mapping))
+	a.al = newAliasC(r.Prog, reach)
+	for _, f := range sortedFuncs(r.Prog.reachableFuncs(a.mapping)) {
+		if r.Prog.IsRuleSite(f) && f != a.dedup {
+			a.scope = append(a.scope, f)
+		}
+	}
+	// the maps are made (make/literal) by the mapping function or by a helper that returns them
+	if _, ok := a.al.canon(a.nameMap).(*ssa.MakeMap); !ok {
+		r.Fatal("the map handed to %s is not a map made by %s or a helper it calls", shortFunc(a.dedup), shortFunc(a.mapping))
 		return nil
 	}
-	if _, ok := a.nodeIndex.(*ssa.MakeMap); !ok {
-		r.Fatal("the node index handed to %s is not a map made in %s", shortFunc(a.dedup), shortFunc(a.mapping))
+	if _, ok := a.al.canon(a.nodeIndex).(*ssa.MakeMap); !ok {
+		r.Fatal("the node index handed to %s is not a map made by %s or a helper it calls", shortFunc(a.dedup), shortFunc(a.mapping))
 		return nil
 	}
 	return a
@@ -164,8 +178,33 @@ func c01TemplatePod(v ssa.Value) bool {
 	return isP && isPtrToNamed(p.Type(), pkgAPI, "ExtendedDaemonSetReplicaSet")
 }
 
+// c01TemplatePodA: like c01TemplatePod, for a pod handed to a helper as a parameter.
+func c01TemplatePodA(al *aliasC, v ssa.Value) bool {
+	if c01TemplatePod(v) {
+		return true
+	}
+	var c *ssa.Call
+	for _, w := range al.chain(v) {
+		if cc, ok := isResultOf(w, pkgPodUtils+".CreatePodFromDaemonSetReplicaSet", 0); ok {
+			c = cc
+			break
+		}
+	}
+	if c == nil || len(c.Call.Args) < 2 {
+		return false
+	}
+	rs := c.Call.Args[1]
+	if ld, isLd := rs.(*ssa.UnOp); isLd {
+		if cell, isA := ld.X.(*ssa.Alloc); isA && spillOfC(cell) != nil {
+			rs = spillOfC(cell)
+		}
+	}
+	p, isP := rs.(*ssa.Parameter)
+	return isP && isPtrToNamed(p.Type(), pkgAPI, "ExtendedDaemonSetReplicaSet")
+}
+
 // c01FitFact: the facts contain CheckNodeFitness(_, template pod, N)==true with key == N.Name.
-func c01FitFact(k *keyer, fs factSet, key ssa.Value) (bool, string) {
+func c01FitFact(al *aliasC, k *keyer, fs factSet, key ssa.Value) (bool, string) {
 	kroot, kpath := accessPath(unwrap(key))
 	why := "no fact CheckNodeFitness(...)==true"
 	for _, f := range fs {
@@ -173,7 +212,7 @@ func c01FitFact(k *keyer, fs factSet, key ssa.Value) (bool, string) {
 		if !ok || !f.Pol || calleeName(&c.Call) != pkgSched+".CheckNodeFitness" || len(c.Call.Args) != 3 {
 			continue
 		}
-		if !c01TemplatePod(c.Call.Args[1]) {
+		if !c01TemplatePodA(al, c.Call.Args[1]) {
 			why = "CheckNodeFitness is not given the pod built from this replica set's template"
 			continue
 		}
@@ -191,50 +230,55 @@ func c01FitFact(k *keyer, fs factSet, key ssa.Value) (bool, string) {
 }
 
 // c01ExistingKey: the facts contain `nameMap[k],ok` with ok true for the same key.
-func c01LookupOK(k *keyer, fs factSet, m ssa.Value, key ssa.Value, pol bool) bool {
+func c01LookupOK(k *keyer, fs factSet, isMap func(ssa.Value) bool, key ssa.Value, pol bool) bool {
 	return valueFactC(fs, pol, func(v ssa.Value) bool {
 		e, ok := v.(*ssa.Extract)
 		if !ok || e.Index != 1 {
 			return false
 		}
 		l, ok := e.Tuple.(*ssa.Lookup)
-		return ok && l.CommaOk && l.X == m && sameValueC(k, l.Index, key)
+		return ok && l.CommaOk && isMap(l.X) && sameValueC(k, l.Index, key)
 	})
 }
 
 func c01MapEntries(r *Run, a *c01Anchors) {
-	fn := a.mapping
-	ff := computeFacts(fn)
 	nCreate := 0
-	for _, b := range fn.Blocks {
-		for _, in := range b.Instrs {
-			mu, ok := in.(*ssa.MapUpdate)
-			if !ok {
-				continue
-			}
-			pos := r.Prog.Pos(instrPos(mu))
-			switch mu.Map {
-			case a.nameMap:
-				fs := ff.At(b)
-				if c01LookupOK(ff.K, fs, a.nameMap, mu.Key, true) {
-					o := r.Check("C01.R1", "update of an existing per-node entry", pos, shortFunc(fn), "key already present (lookup ok)", true, "")
-					o.Trivial = true
+	for _, fn := range a.scope {
+		var ff *FuncFacts
+		for _, b := range fn.Blocks {
+			for _, in := range b.Instrs {
+				mu, ok := in.(*ssa.MapUpdate)
+				if !ok {
 					continue
 				}
-				nCreate++
-				ok, detail := c01FitFact(ff.K, fs, mu.Key)
-				r.Check("C01.R1", "new per-node entry "+descValueC(mu.Key), pos, shortFunc(fn),
-					"a node enters the per-node map only under CheckNodeFitness(pod of this replica set's template, that node) == true", ok, detail)
-			case a.nodeIndex:
-				// node index: key is the Name of the stored item's node
-				vroot, vpath := accessPath(unwrap(mu.Value))
-				kroot, kpath := accessPath(unwrap(mu.Key))
-				ok := (vroot == kroot || sameValueC(ff.K, vroot, kroot)) && len(kpath) > len(vpath) && pathIsC(kpath[:len(vpath)], vpath...) && pathIsMetaC(kpath[len(vpath):], "Node", "Name")
-				r.Check("C01.R1", "node index entry", pos, shortFunc(fn), "the node index maps a node's own name to its item", ok, "key "+descValueC(mu.Key)+" value "+descValueC(mu.Value))
+				if ff == nil {
+					ff = computeFacts(fn)
+				}
+				pos := r.Prog.Pos(instrPos(mu))
+				switch {
+				case a.isNameMap(mu.Map):
+					fs := ff.At(b)
+					if c01LookupOK(ff.K, fs, a.isNameMap, mu.Key, true) {
+						o := r.Check("C01.R1", "update of an existing per-node entry", pos, shortFunc(fn), "key already present (lookup ok)", true, "")
+						o.Trivial = true
+						continue
+					}
+					nCreate++
+					ok, detail := c01FitFact(a.al, ff.K, fs, mu.Key)
+					r.Check("C01.R1", "new per-node entry "+descValueC(mu.Key), pos, shortFunc(fn),
+						"a node enters the per-node map only under CheckNodeFitness(pod of this replica set's template, that node) == true", ok, detail)
+				case a.isNodeIndex(mu.Map):
+					// node index: key is the Name of the stored item's node
+					vroot, vpath := accessPath(unwrap(mu.Value))
+					kroot, kpath := accessPath(unwrap(mu.Key))
+					ok := (vroot == kroot || sameValueC(ff.K, vroot, kroot)) && len(kpath) > len(vpath) && pathIsC(kpath[:len(vpath)], vpath...) && pathIsMetaC(kpath[len(vpath):], "Node", "Name")
+					r.Check("C01.R1", "node index entry", pos, shortFunc(fn), "the node index maps a node's own name to its item", ok, "key "+descValueC(mu.Key)+" value "+descValueC(mu.Value))
+				}
 			}
 		}
 	}
 	if nCreate == 0 {
+		fn := a.mapping
 		r.Check("C01.R1", "new per-node entry", r.Prog.Pos(fn.Pos()), shortFunc(fn), "the mapping function creates per-node entries", false, "no entry-creating map update found")
 	}
 	// de-duplication: output keys are nodeIndex[k] for k ranging over the input map
@@ -316,7 +360,7 @@ func c01PodLoop(r *Run, a *c01Anchors) *c01Loop {
 			continue
 		}
 		for _, in := range b.Instrs {
-			if mu, ok := in.(*ssa.MapUpdate); ok && mu.Map == a.nameMap {
+			if mu, ok := in.(*ssa.MapUpdate); ok && a.isNameMap(mu.Map) {
 				cl.assoc = append(cl.assoc, mu)
 			}
 		}
@@ -360,40 +404,58 @@ func (cl *c01Loop) pathAppends(p *Path, set map[*ssa.Call]bool) bool {
 }
 
 // c01IgnoreMatcher recognises "the node name is in the ignore list": `m[name],ok` for a map m filled
-// with every element of a []string parameter, or a membership call on that parameter.
-func c01IgnoreMatcher(fn *ssa.Function, k *keyer, name func(ssa.Value) bool) func(ssa.Value) bool {
-	ignoreMaps := map[ssa.Value]*ssa.Parameter{}
-	for _, l := range sliceLoopsC(fn) {
-		pr, ok := l.Slice.(*ssa.Parameter)
-		if !ok || pr.Type().String() != "[]string" {
-			continue
+// with every element of the mapping function's []string parameter (the map may be made in the
+// mapping function and handed to a helper, or the other way round), or a membership call on that
+// parameter.
+func c01IgnoreMatcher(a *c01Anchors, name func(ssa.Value) bool) func(ssa.Value) bool {
+	isIgnoreParam := func(v ssa.Value) bool {
+		w := a.al.canon(v)
+		pr, ok := w.(*ssa.Parameter)
+		if !ok {
+			// the parameter of the mapping function itself resolves further up (its single caller): accept
+			// any value whose resolution chain passes through a []string parameter of the mapping function
+			for _, p := range a.mapping.Params {
+				if p.Type().String() == "[]string" && a.al.same(v, p) {
+					return true
+				}
+			}
+			return false
 		}
-		for _, in := range l.Body.Instrs {
-			if mu, ok := in.(*ssa.MapUpdate); ok && l.isElem(k, mu.Key) {
-				if mm, ok := mu.Map.(*ssa.MakeMap); ok && len(l.Body.Succs) == 1 && l.Body.Succs[0] == l.Header {
-					ignoreMaps[mm] = pr
+		return pr.Type().String() == "[]string"
+	}
+	ignoreMaps := map[ssa.Value]bool{} // canonical map values
+	bad := map[ssa.Value]bool{}
+	for _, fn := range a.scope {
+		k := newKeyer(fn)
+		loops := sliceLoopsC(fn)
+		for _, b := range fn.Blocks {
+			for _, in := range b.Instrs {
+				mu, ok := in.(*ssa.MapUpdate)
+				if !ok {
+					continue
+				}
+				m := a.al.canon(mu.Map)
+				if _, isMade := m.(*ssa.MakeMap); !isMade {
+					continue
+				}
+				okForm := false
+				for _, l := range loops {
+					if l.Body == b && len(b.Succs) == 1 && b.Succs[0] == l.Header && l.isElem(k, mu.Key) && isIgnoreParam(l.Slice) {
+						okForm = true
+					}
+				}
+				if okForm {
+					ignoreMaps[m] = true
+				} else {
+					bad[m] = true
 				}
 			}
 		}
 	}
-	// every update of such a map must be of that form
-	for _, b := range fn.Blocks {
-		for _, in := range b.Instrs {
-			if mu, ok := in.(*ssa.MapUpdate); ok {
-				if _, tracked := ignoreMaps[mu.Map]; tracked {
-					okForm := false
-					for _, l := range sliceLoopsC(fn) {
-						if l.Body == b && l.isElem(k, mu.Key) {
-							okForm = true
-						}
-					}
-					if !okForm {
-						delete(ignoreMaps, mu.Map)
-					}
-				}
-			}
-		}
+	for m := range bad {
+		delete(ignoreMaps, m) // every update of an ignore set must have that form
 	}
+	tracked := func(v ssa.Value) bool { return ignoreMaps[a.al.canon(v)] }
 	return func(v ssa.Value) bool {
 		switch x := v.(type) {
 		case *ssa.Extract:
@@ -401,18 +463,15 @@ func c01IgnoreMatcher(fn *ssa.Function, k *keyer, name func(ssa.Value) bool) fun
 			if !ok || !l.CommaOk || x.Index != 1 {
 				return false
 			}
-			_, tracked := ignoreMaps[l.X]
-			return tracked && name(l.Index)
+			return tracked(l.X) && name(l.Index)
 		case *ssa.Lookup: // map[string]bool read without ok
-			_, tracked := ignoreMaps[x.X]
-			return tracked && !x.CommaOk && name(x.Index)
+			return tracked(x.X) && !x.CommaOk && name(x.Index)
 		case *ssa.Call:
 			cal := staticCallee(&x.Call)
 			if cal == nil || len(x.Call.Args) != 2 {
 				return false
 			}
-			pr, isP := x.Call.Args[0].(*ssa.Parameter)
-			if !isP || pr.Type().String() != "[]string" {
+			if !isIgnoreParam(x.Call.Args[0]) {
 				return false
 			}
 			return (membershipFuncC(cal) || strings.HasPrefix(funcName(cal), "slices.Contains")) && name(x.Call.Args[1])
@@ -433,7 +492,7 @@ func c01Association(r *Run, a *c01Anchors) {
 		r.Fatal("pod phase constants not found")
 		return
 	}
-	isIgnored := c01IgnoreMatcher(fn, cl.k, cl.nodeNameOfPod)
+	isIgnored := c01IgnoreMatcher(a, cl.nodeNameOfPod)
 
 	// association sites: nameMap[name(pod)] = append(nameMap[name(pod)], pod)
 	assocBlocks := map[*ssa.BasicBlock]bool{}
@@ -446,7 +505,7 @@ func c01Association(r *Run, a *c01Anchors) {
 		if ap != nil && cl.nodeNameOfPod(mu.Key) {
 			base, elems, spread := appendPartsC(ap)
 			lk, isL := base.(*ssa.Lookup)
-			if isL && lk.X == a.nameMap && sameValueC(cl.k, lk.Index, mu.Key) && spread == nil && len(elems) == 1 && cl.isPod(elems[0]) {
+			if isL && a.isNameMap(lk.X) && sameValueC(cl.k, lk.Index, mu.Key) && spread == nil && len(elems) == 1 && cl.isPod(elems[0]) {
 				good = true
 				assocBlocks[mu.Block()] = true
 				assocApps[ap] = true
@@ -479,13 +538,13 @@ func c01Association(r *Run, a *c01Anchors) {
 		switch {
 		case cl.phaseIs(fs, failed, true):
 			reason = "failed pod"
-		case c01LookupOK(cl.k, fs, a.nameMap, nil, false) || valueFactC(fs, false, func(v ssa.Value) bool {
+		case c01LookupOK(cl.k, fs, a.isNameMap, nil, false) || valueFactC(fs, false, func(v ssa.Value) bool {
 			e, ok := v.(*ssa.Extract)
 			if !ok || e.Index != 1 {
 				return false
 			}
 			l, ok := e.Tuple.(*ssa.Lookup)
-			return ok && l.X == a.nameMap && cl.nodeNameOfPod(l.Index)
+			return ok && a.isNameMap(l.X) && cl.nodeNameOfPod(l.Index)
 		}):
 			reason = "node not in the map"
 		}
@@ -575,7 +634,7 @@ func c01Association(r *Run, a *c01Anchors) {
 				return false
 			}
 			l, ok := e.Tuple.(*ssa.Lookup)
-			return ok && l.CommaOk && l.X == a.nameMap && cl.nodeNameOfPod(l.Index)
+			return ok && l.CommaOk && a.isNameMap(l.X) && cl.nodeNameOfPod(l.Index)
 		})
 	}
 	for _, p := range paths {
@@ -794,27 +853,56 @@ func c01Creator(r *Run, a *c01Anchors) {
 	}
 	e := creates[0]
 	inner := e.Fn
-	creator := topFuncC(inner)
 	pos := r.Prog.Pos(e.Call.Pos())
 	if len(creates) == 1 {
 		r.Check("C01.R4", "Create(*Pod) sites", pos, shortFunc(inner), "exactly one Create(*Pod) call site is reachable from the replica-set Reconcile", true, "")
 	}
 	r.Check("C01.R4", "Create(*Pod) not repeated", pos, shortFunc(inner), "the Create call is not inside a loop of its function", !inCycleC(e.Call.Block()), "")
 
-	// list parameter of the creator
-	var listParam *ssa.Parameter
-	for _, p := range creator.Params {
-		if p.Type().String() == "[]*"+pkgStrategy+".NodeItem" {
-			if listParam != nil {
-				listParam = nil
-				break
+	listParamOf := func(fn *ssa.Function) *ssa.Parameter {
+		var lp *ssa.Parameter
+		for _, p := range fn.Params {
+			if p.Type().String() == "[]*"+pkgStrategy+".NodeItem" {
+				if lp != nil {
+					return nil
+				}
+				lp = p
 			}
-			listParam = p
+		}
+		return lp
+	}
+	// The creator is the function that receives the candidate list. The Create is issued by the
+	// creator itself, by a closure of it, or by a worker function the creator starts (call / go)
+	// once per candidate.
+	var creator *ssa.Function
+	var start ssa.CallInstruction // where the creator starts `inner` (nil: inner is the creator)
+	switch {
+	case listParamOf(inner) != nil:
+		creator = inner
+	case inner.Parent() != nil && listParamOf(inner.Parent()) != nil:
+		creator = inner.Parent()
+	default:
+		if sites := callSitesOf(inner, a.reach); len(sites) == 1 && listParamOf(sites[0].Parent()) != nil {
+			creator, start = sites[0].Parent(), sites[0]
 		}
 	}
-	if listParam == nil {
-		r.Undecided("C01.R4", "creator list parameter", r.Prog.Pos(creator.Pos()), shortFunc(creator), "the creator does not take exactly one []*NodeItem parameter")
+	if creator == nil {
+		r.Undecided("C01.R4", "creator list parameter", r.Prog.Pos(inner.Pos()), shortFunc(inner), "the Create is not issued by a function taking exactly one []*NodeItem, a closure of it, or a worker started from one site of it")
 		return
+	}
+	listParam := listParamOf(creator)
+	if creator != inner && start == nil {
+		var starts []ssa.CallInstruction
+		for _, ci := range callsIn(creator) {
+			if staticCallee(ci.Common()) == inner {
+				starts = append(starts, ci)
+			}
+		}
+		if len(starts) != 1 {
+			r.Check("C01.R4", "creator loop", r.Prog.Pos(creator.Pos()), shortFunc(creator), "Create(*Pod) is issued once per iteration of the single range over the candidate list", false, fmt.Sprintf("the creating closure is started at %d sites", len(starts)))
+			return
+		}
+		start = starts[0]
 	}
 	// call sites of the creator: argument is Result.PodsToCreate
 	sites := callSitesOf(creator, a.reach)
@@ -826,7 +914,7 @@ func c01Creator(r *Run, a *c01Anchors) {
 		ok := isFieldLoadC(arg, pkgStrategy, "Result", "PodsToCreate")
 		r.Check("C01.R4", "creator argument", r.Prog.Pos(cs.Pos()), shortFunc(cs.Parent()), "the creator receives Result.PodsToCreate unmodified", ok, "argument "+descValueC(arg))
 	}
-	// one range loop over the list; the Create happens once per iteration
+	// one range loop over the list; the Create (or the start of its worker) happens once per iteration
 	var loop *sliceLoopC
 	for _, l := range sliceLoopsC(creator) {
 		if isParamOrSpillC(l.Slice, listParam) {
@@ -842,45 +930,72 @@ func c01Creator(r *Run, a *c01Anchors) {
 		return
 	}
 	k := newKeyer(creator)
-	var idxInInner ssa.Value // the value, inside `inner`, that equals the loop index
-	okLoop, why := false, ""
-	if inner == creator {
-		okLoop = loop.In[e.Call.Block()]
-		idxInInner = loop.Idx
-		for _, l2 := range sliceLoopsC(creator) {
-			if l2 != loop && l2.In[e.Call.Block()] {
-				okLoop, why = false, "Create is inside a nested loop"
-			}
+	site := e.Call.Block()
+	if start != nil {
+		site = start.Block()
+	}
+	okLoop, why := loop.In[site], ""
+	if !okLoop {
+		why = "the Create (or the start of the function issuing it) is outside the range over the candidate list"
+	}
+	for _, l2 := range sliceLoopsC(creator) {
+		if l2.Header != loop.Header && l2.In[site] && loop.In[l2.Header] {
+			okLoop, why = false, "the Create (or the start of the function issuing it) is inside a nested loop"
 		}
-	} else if inner.Parent() == creator {
-		// closure started once per iteration, index passed as argument or captured
-		var starts []ssa.CallInstruction
-		for _, ci := range callsIn(creator) {
-			if staticCallee(ci.Common()) == inner {
-				starts = append(starts, ci)
-			}
+	}
+	for _, l2 := range mapLoopsC(creator) {
+		if l2.In[site] && loop.In[l2.Header] {
+			okLoop, why = false, "the Create (or the start of the function issuing it) is inside a nested loop"
 		}
-		if len(starts) == 1 && loop.In[starts[0].Block()] {
-			okLoop = true
-			for _, l2 := range sliceLoopsC(creator) {
-				if l2 != loop && l2.In[starts[0].Block()] && l2.Header != loop.Header && loop.In[l2.Header] {
-					okLoop, why = false, "the closure is started inside a nested loop"
-				}
-			}
-			for i, arg := range starts[0].Common().Args {
-				if arg == loop.Idx && i < len(inner.Params) {
-					idxInInner = inner.Params[i]
-				}
-			}
-		} else {
-			why = fmt.Sprintf("the creating closure is started at %d sites or outside the range loop", len(starts))
-		}
-	} else {
-		why = "Create is nested more than one closure deep"
 	}
 	r.Check("C01.R4", "creator loop", r.Prog.Pos(instrPos(loop.Header.Instrs[len(loop.Header.Instrs)-1])), shortFunc(creator), "Create(*Pod) is issued once per iteration of the single range over the candidate list", okLoop, why)
 
-	// the created pod is built for list[idx].Node
+	// isCandidate: v (a value of `inner`) is the candidate of the current iteration
+	boundTo := func(p *ssa.Parameter) ssa.Value { // argument the worker's parameter receives at its start
+		if start == nil || p.Parent() != inner {
+			return nil
+		}
+		if i := paramIndex(p); i >= 0 && i < len(start.Common().Args) {
+			return start.Common().Args[i]
+		}
+		return nil
+	}
+	isLoopIdx := func(v ssa.Value) bool {
+		if v == loop.Idx && inner == creator {
+			return true
+		}
+		if p, ok := v.(*ssa.Parameter); ok {
+			return boundTo(p) == loop.Idx
+		}
+		return false
+	}
+	isList := func(v ssa.Value) bool {
+		if denotesParamC(v, listParam) {
+			return true
+		}
+		if p, ok := unwrap(v).(*ssa.Parameter); ok {
+			if b := boundTo(p); b != nil {
+				return isParamOrSpillC(b, listParam)
+			}
+		}
+		return false
+	}
+	isCandidate := func(root ssa.Value) bool {
+		switch x := root.(type) {
+		case *ssa.IndexAddr:
+			if inner == creator && loop.isElemAddr(k, x) {
+				return true
+			}
+			return isList(x.X) && isLoopIdx(x.Index)
+		case *ssa.Parameter:
+			b := boundTo(x)
+			return b != nil && loop.isElem(k, b)
+		case *ssa.Alloc:
+			return inner == creator && loop.isElemAddr(k, x)
+		}
+		return false
+	}
+	// the created pod is built for <candidate>.Node
 	built := false
 	detail := ""
 	for _, o := range origins(e.Obj) {
@@ -891,50 +1006,14 @@ func c01Creator(r *Run, a *c01Anchors) {
 			break
 		}
 		root, p := accessPath(unwrap(c.Call.Args[2]))
-		ia, isIA := root.(*ssa.IndexAddr)
-		if !isIA || !pathIsC(p, "Node") {
-			detail = "node argument is " + descValueC(c.Call.Args[2])
+		if !pathIsC(p, "Node") || !isCandidate(root) {
+			detail = "node argument " + descValueC(c.Call.Args[2]) + " is not the Node of the current candidate"
 			built = false
 			break
 		}
-		listOK := ia.X == ssa.Value(listParam)
-		if fv, isFV := ia.X.(*ssa.UnOp); isFV { // captured variable: *freevar
-			if f, ok := fv.X.(*ssa.FreeVar); ok {
-				for i, b := range inner.FreeVars {
-					if b == f {
-						for _, ci := range callsIn(creator) {
-							if mc, ok := ci.Common().Value.(*ssa.MakeClosure); ok && mc.Fn == ssa.Value(inner) && i < len(mc.Bindings) {
-								if al, ok := mc.Bindings[i].(*ssa.Alloc); ok && spillOfC(al) == ssa.Value(listParam) {
-									listOK = true
-								}
-							}
-						}
-					}
-				}
-			}
-		}
-		if f, ok := ia.X.(*ssa.FreeVar); ok {
-			for i, b := range inner.FreeVars {
-				if b == f {
-					for _, ci := range callsIn(creator) {
-						if mc, ok := ci.Common().Value.(*ssa.MakeClosure); ok && mc.Fn == ssa.Value(inner) && i < len(mc.Bindings) && mc.Bindings[i] == ssa.Value(listParam) {
-							listOK = true
-						}
-					}
-				}
-			}
-		}
-		idxOK := idxInInner != nil && ia.Index == idxInInner
-		if listOK && idxOK {
-			built = true
-		} else {
-			detail = fmt.Sprintf("node argument %s: list is the candidate list=%v, index is the loop index=%v", descValueC(c.Call.Args[2]), listOK, idxOK)
-			built = false
-			break
-		}
+		built = true
 	}
-	_ = k
-	r.Check("C01.R4", "created pod's node", pos, shortFunc(inner), "the created pod is built by the pod constructor for candidates[i].Node, i the loop index", built, detail)
+	r.Check("C01.R4", "created pod's node", pos, shortFunc(inner), "the created pod is built by the pod constructor for the Node of the candidate of the current iteration", built, detail)
 }
 
 // ---------------------------------------------------------------------------------------------
@@ -1009,8 +1088,9 @@ func c01Dedup(r *Run, a *c01Anchors) {
 			if ld != nil {
 				ia, _ = ld.X.(*ssa.IndexAddr)
 			}
+			isZero := func(v ssa.Value) bool { c, ok := constInt(v); return ok && c == 0 }
 			ok2 := ia != nil && ia.X == pods && instrBeforeC(sortCall, mu) &&
-				eqFactC(ff.At(b), true, func(v ssa.Value) bool { return v == ia.Index }, func(v ssa.Value) bool { c, ok := constInt(v); return ok && c == 0 })
+				(isZero(ia.Index) || eqFactC(ff.At(b), true, func(v ssa.Value) bool { return v == ia.Index }, isZero))
 			r.Check("C01.R6", "kept pod", r.Prog.Pos(instrPos(mu)), shortFunc(d), "the pod kept for a node is element 0 of its list after the sort", ok2, "value "+descValueC(mu.Value)+"; must-facts: "+descFactsC(ff.At(b)))
 		}
 	}
@@ -1019,13 +1099,23 @@ func c01Dedup(r *Run, a *c01Anchors) {
 	}
 	for _, b := range d.Blocks {
 		if ret := returnOf(b); ret != nil && len(ret.Results) == 2 {
-			apps, leaves := sliceChainC(ret.Results[1])
+			apps, leaves := sliceChainBaseC(ret.Results[1])
 			okAll := len(leaves) == 0
 			detail := ""
 			for _, ap := range apps {
 				_, elems, spread := appendPartsC(ap)
 				if spread != nil {
-					okAll, detail = false, "spread append"
+					// append(dup, pods[1:]...): everything but the kept first element of the sorted list
+					sl, isSl := spread.(*ssa.Slice)
+					tail := false
+					if isSl && sl.X == pods && sl.High == nil && sl.Max == nil && sl.Low != nil && instrBeforeC(sortCall, ap) {
+						if n, okc := constInt(sl.Low); okc && n == 1 {
+							tail = true
+						}
+					}
+					if !tail {
+						okAll, detail = false, "spread append of "+descValueC(spread)
+					}
 				}
 				for _, e := range elems {
 					ld, _ := e.(*ssa.UnOp)
@@ -1053,7 +1143,7 @@ func c01Less(r *Run, less *ssa.Function) {
 		return
 	}
 	pi, pj := less.Params[len(less.Params)-2], less.Params[len(less.Params)-1]
-	cases, _, ok := boolCasesC(less, 0, 5000)
+	cases, k, ok := boolCasesC(less, 0, 5000)
 	r.paths += len(cases)
 	if !ok {
 		r.Undecided("C01.R6", "comparator", r.Prog.Pos(less.Pos()), shortFunc(less), "path cap exceeded")
@@ -1074,40 +1164,109 @@ func c01Less(r *Run, less *ssa.Function) {
 		}
 		return -1, nil
 	}
+	// schedOf: what the fact says about "pod i / pod j is scheduled" (who = -1: nothing)
+	schedOf := func(f Fact) (who int, val bool) {
+		cf, ok := decodeCmpC(f)
+		if !ok {
+			return -1, false
+		}
+		for _, side := range [][2]ssa.Value{{cf.X, cf.Y}, {cf.Y, cf.X}} {
+			s, other := side[0], side[1]
+			isLen := false
+			if ln := builtinCallC(s, "len"); ln != nil {
+				s, isLen = ln.Call.Args[0], true
+			}
+			w, p := rooted(s)
+			if w < 0 || !pathIsC(p, "Spec", "NodeName") {
+				continue
+			}
+			zero := false
+			if isLen {
+				z, ok := constInt(other)
+				zero = ok && z == 0
+			} else {
+				z, ok := constString(other)
+				zero = ok && z == ""
+			}
+			if !zero {
+				continue
+			}
+			switch {
+			case cf.Op == "==":
+				return w, !cf.Pol
+			case cf.Op == "<" && side[1] == cf.X && isLen: // 0 < len
+				return w, cf.Pol
+			}
+		}
+		return -1, false
+	}
+	// the conditions of the function that decide scheduled(i) / scheduled(j): used to split a case in
+	// which the comparator did not branch on them individually (e.g. `if si != sj { return si }`)
+	var atoms [2][]ssa.Value
+	for _, b := range less.Blocks {
+		for _, in := range b.Instrs {
+			bo, isB := in.(*ssa.BinOp)
+			if !isB {
+				continue
+			}
+			fl := k.normCond(bo, true)
+			if len(fl) != 1 {
+				continue
+			}
+			if w, _ := schedOf(fl[0]); w >= 0 {
+				atoms[w] = append(atoms[w], bo)
+			}
+		}
+	}
+	known := func(fs factSet, who int) bool {
+		for _, f := range fs {
+			if w, _ := schedOf(f); w == who {
+				return true
+			}
+		}
+		return false
+	}
+	// saturate with boolean-equality consequences, drop infeasible rows, split on undetermined atoms
+	var expanded []boolCaseC
+	var expand func(c boolCaseC, depth int)
+	expand = func(c boolCaseC, depth int) {
+		fs := factSet{}
+		for kk, f := range c.Facts {
+			fs[kk] = f
+		}
+		if !closeBoolEqC(k, fs) {
+			return // infeasible
+		}
+		c.Facts = fs
+		for who := 0; who < 2 && depth < 4; who++ {
+			if known(fs, who) || len(atoms[who]) == 0 {
+				continue
+			}
+			for _, pol := range []bool{true, false} {
+				sub := c
+				sub.Facts = factSet{}
+				for kk, f := range fs {
+					sub.Facts[kk] = f
+				}
+				for _, nf := range k.normCond(atoms[who][0], pol) {
+					sub.Facts[fkey(nf)] = nf
+				}
+				expand(sub, depth+1)
+			}
+			return
+		}
+		expanded = append(expanded, c)
+	}
+	for _, c := range cases {
+		expand(c, 0)
+	}
+	cases = expanded
 	for _, c := range cases {
 		var sched [2]*bool
 		iOlder, iNotOlder, tie := false, false, false
 		for _, f := range c.Facts {
-			if cf, ok := decodeCmpC(f); ok {
-				// len(x.Spec.NodeName) ? 0   or   x.Spec.NodeName ? ""
-				for _, side := range [][2]ssa.Value{{cf.X, cf.Y}, {cf.Y, cf.X}} {
-					s, other := side[0], side[1]
-					isLen := false
-					if ln := builtinCallC(s, "len"); ln != nil {
-						s, isLen = ln.Call.Args[0], true
-					}
-					who, p := rooted(s)
-					if who < 0 || !pathIsC(p, "Spec", "NodeName") {
-						continue
-					}
-					zero := false
-					if isLen {
-						z, ok := constInt(other)
-						zero = ok && z == 0
-					} else {
-						z, ok := constString(other)
-						zero = ok && z == ""
-					}
-					if !zero {
-						continue
-					}
-					switch {
-					case cf.Op == "==":
-						sched[who] = bptr(!cf.Pol)
-					case cf.Op == "<" && side[1] == cf.X && isLen: // 0 < len
-						sched[who] = bptr(cf.Pol)
-					}
-				}
+			if w, v := schedOf(f); w >= 0 {
+				sched[w] = bptr(v)
 				continue
 			}
 			call, ok := f.V.(*ssa.Call)
